@@ -12,7 +12,7 @@
   (remote + settings), Model/InputGen.lean (the generators that read the schema object),
   Spec/BuildClientSchema.lean (top of graphql-core's builder; modelled, validated, not verified).
 
-  The property is FALSE on the pinned tree in three places, each with its trigger predicate:
+  The property is FALSE on the pinned tree in four modelled places, each with its trigger predicate:
     F1  `trigDefaultLost`      input-field defaults are read from `field.ast_node`, absent after introspection
     F2  `trigTransportExc`     exceptions of `httpx.post` other than `InvalidURL` escape untyped
     F3  `trigDataRejected`     a `data` object that `build_client_schema` rejects escapes as TypeError/KeyError
